@@ -82,10 +82,15 @@ def hist_c15(case, go):
 
 # ------------------------------------------------------------------------------------ C14
 def cmp_c14(case, go, m, s):
+    if case.startswith("GFLD "):
+        # model column = Scan / UnmarshalJSON as translated, specification column = the hand-written model: the real code equals both
+        return go == m, go == s
     return go == m, s == "ok"
 
 
 def hist_c14(case, go):
+    if case.startswith("GFLD "):
+        return ["op:GFLD"]
     a = case.split(" ")
     if a[0] == "UT":
         return ["route:Message.UnmarshalText", "result:" + go.split(" | ")[0]]
